@@ -13,6 +13,10 @@ var baseAssumptions = []string{
 	"solver: z3 4.8.12 incremental bit-vector queries; `unknown` and `(error` make the check inconclusive, never passing",
 }
 
+var mustC07 = []string{"encode-ok", "typed-prefix-rejected", "auto-prefix-rejected"}
+var mustC14 = []string{"writeblock-ok", "writeblock-flush-ok", "writeblock==encodeblock", "writecolumn-flush-ok", "writecolumn==encodecolumn"}
+var mustC01 = []string{"rows-after-append", "encode-ok", "prefix-untouched", "encode-again-ok", "bytes-independent-of-buffer", "typed-decode-ok", "block-header", "typed-rows", "typed-values", "typed-exhausted", "auto-decode-ok", "auto-shape", "auto-name", "auto-type", "auto-column-kind", "auto-rows", "auto-values", "auto-exhausted"}
+
 var props = map[string]*propDef{
 	"C14": {
 		ID: "C14", Level: "model_checking", Rule: ruleDefault,
@@ -21,6 +25,10 @@ var props = map[string]*propDef{
 		}, baseAssumptions...),
 		Harnesses: []harnessDef{
 			{Name: "proto.VerifC14History", Quick: map[string]int{"maxops": 3}, Thorough: map[string]int{"maxops": 4}},
+			{Name: "proto.VerifC14History", Quick: map[string]int{"maxops": 2}, Thorough: map[string]int{"maxops": 3}, Cfg: func(c *sym.Config) { c.GrowExact = true }},
+			{Must: mustC14, Name: "proto.VerifC14GenLeaves", Quick: map[string]int{"maxrows": 2}, Thorough: map[string]int{"maxrows": 3}},
+			{Must: mustC14, Name: "proto.VerifC14PlainLeaves", Quick: map[string]int{"maxrows": 2, "maxstr": 1}, Thorough: map[string]int{"maxrows": 3, "maxstr": 2}},
+			{Must: mustC14, Name: "proto.VerifC14Composites", Quick: map[string]int{"maxrows": 2, "maxstr": 1, "maxinner": 1}, Thorough: map[string]int{"maxrows": 2, "maxstr": 1, "maxinner": 2}},
 		},
 	},
 	"C17": {
@@ -49,11 +57,33 @@ var props = map[string]*propDef{
 			"oracle = the values the harness appended (plain Go slices) and the bytes of a second encoding into an empty buffer",
 		}, baseAssumptions...),
 		Harnesses: []harnessDef{
-			{Name: "proto.VerifC01GenLeaves", Quick: map[string]int{"maxrows": 2}, Thorough: map[string]int{"maxrows": 4}},
-			{Name: "proto.VerifC01PlainLeaves", Quick: map[string]int{"maxrows": 2, "maxstr": 2}, Thorough: map[string]int{"maxrows": 3, "maxstr": 2}},
-			{Name: "proto.VerifC01Composites", Quick: map[string]int{"maxrows": 2, "maxstr": 1, "maxinner": 2}, Thorough: map[string]int{"maxrows": 3, "maxstr": 2, "maxinner": 2}},
-			{Name: "proto.VerifC01PlainLeaves", Tags: "verif,purego", Quick: map[string]int{"maxrows": 2, "maxstr": 1}, Thorough: map[string]int{"maxrows": 3, "maxstr": 2}},
-			{Name: "proto.VerifC01GenLeaves", Tags: "verif,purego", Quick: map[string]int{"maxrows": 2}, Thorough: map[string]int{"maxrows": 4}},
+			{Must: mustC01, Name: "proto.VerifC01GenLeaves", Quick: map[string]int{"maxrows": 2}, Thorough: map[string]int{"maxrows": 4}},
+			{Must: mustC01, Name: "proto.VerifC01PlainLeaves", Quick: map[string]int{"maxrows": 2, "maxstr": 2}, Thorough: map[string]int{"maxrows": 3, "maxstr": 2}},
+			{Must: mustC01, Name: "proto.VerifC01Composites", Quick: map[string]int{"maxrows": 2, "maxstr": 1, "maxinner": 2}, Thorough: map[string]int{"maxrows": 3, "maxstr": 2, "maxinner": 2}},
+			{Must: mustC01, Name: "proto.VerifC01PlainLeaves", Tags: "verif,purego", Quick: map[string]int{"maxrows": 2, "maxstr": 1}, Thorough: map[string]int{"maxrows": 3, "maxstr": 2}},
+			{Must: mustC01, Name: "proto.VerifC01GenLeaves", Tags: "verif,purego", Quick: map[string]int{"maxrows": 2}, Thorough: map[string]int{"maxrows": 4}},
+		},
+	},
+	"C07": {
+		ID: "C07", Level: "model_checking", Rule: ruleDefault,
+		Assumptions: append([]string{
+			"the encodings cut are those produced by the library's own encoders for the shapes of C01/C17 (plain stream; the compressed stream is cut in C05's harness)",
+		}, baseAssumptions...),
+		Harnesses: []harnessDef{
+			{Name: "proto.VerifC07Messages", Quick: map[string]int{"maxstr": 1}, Thorough: map[string]int{"maxstr": 2}},
+			{Must: mustC07, Name: "proto.VerifC07GenLeaves", Quick: map[string]int{"maxrows": 1}, Thorough: map[string]int{"maxrows": 2}},
+			{Must: mustC07, Name: "proto.VerifC07PlainLeaves", Quick: map[string]int{"maxrows": 2, "maxstr": 1}, Thorough: map[string]int{"maxrows": 2, "maxstr": 2}},
+			{Must: mustC07, Name: "proto.VerifC07Composites", Quick: map[string]int{"maxrows": 2, "maxstr": 1, "maxinner": 1}, Thorough: map[string]int{"maxrows": 2, "maxstr": 1, "maxinner": 2}},
+		},
+	},
+	"C15": {
+		ID: "C15", Level: "translation_validation", Rule: ruleDefault + "; each case is executed in BOTH SSA programs (tags verif and verif,purego) on the same symbolic inputs and every emitted value (encoded bytes, error class, row count, decoded rows) is asserted equal",
+		Assumptions: append([]string{
+			"default build modelled as amd64/little-endian (unsafe slice views over byte-addressed memory); ColRawOf exists only in the default build and is outside",
+		}, baseAssumptions...),
+		Harnesses: []harnessDef{
+			{Name: "proto.VerifC15GenLeaves", DualTags: "verif,purego", Quick: map[string]int{"maxrows": 2}, Thorough: map[string]int{"maxrows": 3}, Must: []string{"dual:encoded", "dual:written", "dual:decode-err", "dual:rows"}},
+			{Name: "proto.VerifC15BoolUUID", DualTags: "verif,purego", Quick: map[string]int{"maxrows": 2}, Thorough: map[string]int{"maxrows": 3}, Must: []string{"dual:encoded", "dual:written", "dual:decode-err", "dual:rows", "dual:row"}},
 		},
 	},
 }
